@@ -64,6 +64,43 @@ def S_validate_bfq (lim fee p cur : Dec) : Prop :=
 def S_validate_qfb (lim fee p cur : Dec) : Prop :=
   qfb_ValidateSqrtPrice_err lim fee p cur = false → cur.raw ≤ p.raw ∧ p.raw ≤ MaxSqrtPrice.raw
 
+
+/-- bucket step, exact-in: when the fee-reduced remaining amount covers the whole bucket the step lands exactly on the target,
+    consumes the full-bucket input (rounded up) and charges the fee on it -/
+def S_bfq_outGivenIn_reaches (lim fee cur tgt liq rem : Dec) : Prop :=
+  Dec.gte (Dec.mul rem (Dec.sub Dec.one fee)) (CalcAmountBaseDelta liq tgt cur true) = true →
+    (bfq_ComputeSwapWithinBucketOutGivenIn lim fee cur tgt liq rem).1 = tgt
+    ∧ (bfq_ComputeSwapWithinBucketOutGivenIn lim fee cur tgt liq rem).2.1 = CalcAmountBaseDelta liq tgt cur true
+    ∧ (bfq_ComputeSwapWithinBucketOutGivenIn lim fee cur tgt liq rem).2.2.1 = CalcAmountQuoteDelta liq tgt cur false
+
+def S_qfb_outGivenIn_reaches (lim fee cur tgt liq rem : Dec) : Prop :=
+  Dec.gte (Dec.mul rem (Dec.sub Dec.one fee)) (CalcAmountQuoteDelta liq tgt cur true) = true →
+    (qfb_ComputeSwapWithinBucketOutGivenIn lim fee cur tgt liq rem).1 = tgt
+    ∧ (qfb_ComputeSwapWithinBucketOutGivenIn lim fee cur tgt liq rem).2.1 = CalcAmountQuoteDelta liq tgt cur true
+    ∧ (qfb_ComputeSwapWithinBucketOutGivenIn lim fee cur tgt liq rem).2.2.1 = CalcAmountBaseDelta liq tgt cur false
+
+/-- quote-in step that stops short of the target never moves the price against the trade -/
+def S_qfb_outGivenIn_direction (lim fee cur tgt liq rem : Dec) : Prop :=
+  0 < liq.raw → 0 ≤ rem.raw → 0 ≤ fee.raw → fee.raw ≤ PREC →
+  Dec.gte (Dec.mul rem (Dec.sub Dec.one fee)) (CalcAmountQuoteDelta liq tgt cur true) = false →
+    cur.raw ≤ (qfb_ComputeSwapWithinBucketOutGivenIn lim fee cur tgt liq rem).1.raw
+
+/-- exact-out steps never hand out more than was asked for in the step (explicit cap in both helpers) -/
+def S_bfq_inGivenOut_out_le_remaining (lim fee cur tgt liq rem : Dec) : Prop :=
+  (bfq_ComputeSwapWithinBucketInGivenOut lim fee cur tgt liq rem).2.1.raw ≤ rem.raw
+def S_qfb_inGivenOut_out_le_remaining (lim fee cur tgt liq rem : Dec) : Prop :=
+  (qfb_ComputeSwapWithinBucketInGivenOut lim fee cur tgt liq rem).2.1.raw ≤ rem.raw
+
+def S_bfq_inGivenOut_reaches (lim fee cur tgt liq rem : Dec) : Prop :=
+  Dec.gte rem (CalcAmountQuoteDelta liq tgt cur false) = true →
+    (bfq_ComputeSwapWithinBucketInGivenOut lim fee cur tgt liq rem).1 = tgt
+    ∧ (bfq_ComputeSwapWithinBucketInGivenOut lim fee cur tgt liq rem).2.2.1 = CalcAmountBaseDelta liq tgt cur true
+
+def S_qfb_inGivenOut_reaches (lim fee cur tgt liq rem : Dec) : Prop :=
+  Dec.gte rem (CalcAmountBaseDelta liq tgt cur false) = true →
+    (qfb_ComputeSwapWithinBucketInGivenOut lim fee cur tgt liq rem).1 = tgt
+    ∧ (qfb_ComputeSwapWithinBucketInGivenOut lim fee cur tgt liq rem).2.2.1 = CalcAmountQuoteDelta liq tgt cur true
+
 instance : Decidable (S_quoteIn_next_le_exact cur liq amt) := by unfold S_quoteIn_next_le_exact; infer_instance
 instance : Decidable (S_quoteIn_next_tight cur liq amt) := by unfold S_quoteIn_next_tight; infer_instance
 instance : Decidable (S_quoteOut_next_le_exact cur liq amt) := by unfold S_quoteOut_next_le_exact; infer_instance
@@ -78,5 +115,12 @@ instance : Decidable (S_target_clamped_bfq lim fee p) := by unfold S_target_clam
 instance : Decidable (S_target_clamped_qfb lim fee p) := by unfold S_target_clamped_qfb; infer_instance
 instance : Decidable (S_validate_bfq lim fee p cur) := by unfold S_validate_bfq; infer_instance
 instance : Decidable (S_validate_qfb lim fee p cur) := by unfold S_validate_qfb; infer_instance
+instance (lim fee cur tgt liq rem : Dec) : Decidable (S_bfq_outGivenIn_reaches lim fee cur tgt liq rem) := by unfold S_bfq_outGivenIn_reaches; infer_instance
+instance (lim fee cur tgt liq rem : Dec) : Decidable (S_qfb_outGivenIn_reaches lim fee cur tgt liq rem) := by unfold S_qfb_outGivenIn_reaches; infer_instance
+instance (lim fee cur tgt liq rem : Dec) : Decidable (S_qfb_outGivenIn_direction lim fee cur tgt liq rem) := by unfold S_qfb_outGivenIn_direction; infer_instance
+instance (lim fee cur tgt liq rem : Dec) : Decidable (S_bfq_inGivenOut_out_le_remaining lim fee cur tgt liq rem) := by unfold S_bfq_inGivenOut_out_le_remaining; infer_instance
+instance (lim fee cur tgt liq rem : Dec) : Decidable (S_qfb_inGivenOut_out_le_remaining lim fee cur tgt liq rem) := by unfold S_qfb_inGivenOut_out_le_remaining; infer_instance
+instance (lim fee cur tgt liq rem : Dec) : Decidable (S_bfq_inGivenOut_reaches lim fee cur tgt liq rem) := by unfold S_bfq_inGivenOut_reaches; infer_instance
+instance (lim fee cur tgt liq rem : Dec) : Decidable (S_qfb_inGivenOut_reaches lim fee cur tgt liq rem) := by unfold S_qfb_inGivenOut_reaches; infer_instance
 
 end Sunrise.C05
